@@ -23,7 +23,7 @@ ASSUMPTIONS = [
 def run(ctx):
     ctx.prove(models=['Model/C22Check.v', 'Model/C23Check.v'])
     r = ctx.rng
-    n = 180 if ctx.quick else 2500
+    n = 150 if ctx.quick else 2500
     cases = []
     fixed = [
         (2, [[('L',), ('U',)], [('X', 1), ('U',)], [('S', 1), ('V', 1)]], [0, 1, 2, 0, 1, 2, 2, 0, 0, 0, 2, 2, 2, 1, 1, 1] + [0, 1, 2] * 30),
@@ -33,6 +33,7 @@ def run(ctx):
     for nn, progs, sched in fixed:
         b = rw_common.BUDGET[nn]
         cases.append({'dist': True, 'n': nn, 'budget': b, 'progs': progs, 'sched': (sched + [0] * 400)[:b + 12]})
+    cases += rw_common.probe_family(True, not ctx.quick)      # deterministic hand-over windows: reader fetch_add, hand-over, reader back-out, probe
     cases += [rw_common.gen_case(r, True, malformed=(i % 8 == 7)) for i in range(n)]
     kept, verdicts = rw_common.correspond(ctx, cases, 'judge_dist', 'From DV Require Import Base.Sched Model.RWLockModel Model.C22Check Model.C23Check.', 'C23')
     ctx.cov['rule'] = ('generated scripts (2-4 threads; N in {1,2,4,16}; blocking and try writers, readers on arbitrary indices, ~1/8 malformed) x generated schedules, one fork per case under vsched on the real DistributedRWLockImpl<N>; '
